@@ -489,7 +489,8 @@ class MethodMixin:
             argsorts, ret = spec_[0], spec_[1]
             if len(spec_) > 2 and kwargs:
                 # keyword arguments by declared name: ([sorts], ret, [names])
-                args = list(args) + [None] * (len(spec_[2]) - len(args))
+                from .calls import ABSENT
+                args = list(args) + [ABSENT] * (len(spec_[2]) - len(args))
                 for kn_, kv_ in kwargs.items():
                     args[spec_[2].index(kn_)] = kv_
             r, a2 = self.opaque_app(name, argsorts, ret, recv.term, args)      # extra arguments beyond the declared ones are ignored
